@@ -136,7 +136,7 @@ pub fn replay_one(ctx: &Ctx, bytes: &[u8]) -> Option<String> {
 }
 
 fn part_b_inputs(ctx: &Ctx) -> Vec<String> {
-    let n_inputs = if ctx.thorough() { 6000 } else { 1200 };
+    let n_inputs = if ctx.thorough() { 30000 } else { 1200 };
     let mut inputs = gen_::mixed_inputs(ctx.args.seed, "c25", n_inputs, 400);
     inputs.extend(gen_::corpus());
     inputs.extend(gen_::type_error_inputs());
